@@ -172,6 +172,41 @@ func c13() []*Ob {
 					}
 				}
 			}},
+		{Prop: "C13", ID: "C13.6", Engine: "DOM(typeswitch)", Floor: 1,
+			Desc: "dictionary pre-selection by prefix only where matching is by spelling: parser.GetHint (which a sealed fraction uses to select token-dictionary blocks) returns a non-empty hint only under the *Literal case of its type switch — for a Range, membership is decided by value ('1e2' is in [100 TO 100]) and any prefix hint drops blocks that hold matching tokens",
+			Check: func(c *Ctx) {
+				fn := c.Fn("parser.GetHint")
+				if fn == nil {
+					return
+				}
+				for _, b := range fn.Blocks {
+					ret, ok := b.Instrs[len(b.Instrs)-1].(*ssa.Return)
+					if !ok {
+						continue
+					}
+					v := RetOperand(ret, 0)
+					if s, isS := ConstString(v); isS && s == "" {
+						continue
+					}
+					underLiteral := false
+					for _, f := range FactsAt(b) {
+						e, isE := f.Cond.(*ssa.Extract)
+						if !isE || e.Index != 1 || !f.Val {
+							continue
+						}
+						if ta, isTA := e.Tuple.(*ssa.TypeAssert); isTA && strings.HasSuffix(ta.AssertedType.String(), "parser.Literal") {
+							underLiteral = true
+						}
+					}
+					if underLiteral {
+						c.Site(ret.Pos(), "a hint is returned only for a literal")
+					} else {
+						c.Violation("dom:GetHint:non-literal-hint", ret.Pos(), "GetHint returns a hint for a token that is not a *Literal: sealed fractions pre-select dictionary blocks by that prefix, so a range (matched by value) or any other token loses the matching tokens that are spelled differently — active and sealed fractions answer differently")
+					}
+				}
+				// the hint is consumed by the sealed token index only
+				c.Site(fn.Pos(), "GetHint checked")
+			}},
 		{Prop: "C13", ID: "C13.5", Engine: "PROV+SHAPE", Floor: 1,
 			Desc:  "structural necessities of the wildcard matcher: checkMiddle searches the middle fragments in val[len(prefix) : len(val)-len(suffix)] (not overlapping prefix or suffix); the prefix-function fallback in findSubstring and calcPrefFunc is iterated (a loop), not a single step",
 			Check: func(c *Ctx) { matcherShape(c) }},
